@@ -115,5 +115,5 @@ package netsample
 //@ func Acquire
 //@ props C10 C11
 //@ env pooltype(samplePool, *Sample)
-//@ ensures [a-blank-sample-with-the-tag] result != nil && result.tags == tag && result.id == 0 && result.err == nil && forall(k, 0, 10, result.fields[k] == 0)
+//@ ensures [a-blank-sample-with-the-tag] result != nil && fresh(result) && result.tags == tag && result.id == 0 && result.err == nil && forall(k, 0, 10, result.fields[k] == 0)
 //@ modifies nothing
